@@ -32,6 +32,15 @@
 (*       Backoff               the n-th consecutive attempt was started by *)
 (*                             a timer armed with index min(n, Cap)        *)
 (*                                                                         *)
+(* The backoff index is the abstraction of the delay the code keeps in     *)
+(* state.nextDelay; `nd` is that value itself (milliseconds), computed the  *)
+(* way the code computes it (multiply, then clamp) for the configuration   *)
+(* Initial, MulN/MulD, MaxDelay.  Instances whose MaxDelay is NOT          *)
+(* Initial * Multiplier^n are part of every run: only there does the clamp *)
+(* matter.  `cons` (ghost) is the number of consecutive attempts since the *)
+(* address was last scheduled afresh, cancelled, reset or CONNECTED: the k *)
+(* of the statement restarts after a success.                              *)
+(*                                                                         *)
 (* Deviations (what the pinned code does instead):                         *)
 (*   DevNoPauseCheckInAttempt  attemptReconnect never looks at `paused`:   *)
 (*       a timer that fired just before Pause still starts its attempt,    *)
@@ -40,6 +49,10 @@
 (*       timer starts an attempt while the state exists, and the failure   *)
 (*       path arms a timer without stopping the one armed meanwhile (by a  *)
 (*       Schedule from inside the callback)                                *)
+(*   DevNoClamp                the product nextDelay*Multiplier is not     *)
+(*       clamped to MaxDelay (growth merely stops once the cap is reached) *)
+(*   DevSuccessKeepsState      a successful attempt keeps the state (and   *)
+(*       its grown delay) when a timer was armed while the callback ran    *)
 (***************************************************************************)
 EXTENDS Naturals, Sequences, FiniteSets, TLC, Json
 
@@ -50,26 +63,38 @@ CONSTANTS Addr,         \* peer addresses
           MaxGate,      \* fired timers waiting in front of the lock, per address
           MaxInfl,      \* attempts in flight, per address
           MaxPend,      \* pending timers per address (only a deviation can exceed 1)
+          Initial, MulN, MulD, MaxDelay,  \* delays in ms: Initial, multiplier MulN/MulD, cap
           WithStop,     \* model Stop()
           Dev,
           Emit
 
-DevNames == {"DevNoPauseCheckInAttempt", "DevDoubleTimer"}
+DevNames == {"DevNoPauseCheckInAttempt", "DevDoubleTimer", "DevNoClamp", "DevSuccessKeepsState"}
 ASSUME Dev \subseteq DevNames
 
 VARIABLES paused, closed,
           ex,     \* [Addr -> BOOLEAN]   a reconnectState exists
           att,    \* [Addr -> Nat]       state.attempts
-          idx,    \* [Addr -> 0..Cap]    state.nextDelay = Initial * Multiplier^idx
+          idx,    \* [Addr -> 0..Cap]    state.nextDelay = min(Initial * Multiplier^idx, MaxDelay)
+          nd,     \* [Addr -> Nat]       state.nextDelay itself, in ms (0 = no state)
+          cons,   \* [Addr -> Nat]       ghost: consecutive attempts of the current run of retries
           pend,   \* [Addr -> Seq([d, cur])]  armed timers that have not fired and were not stopped
           gate,   \* [Addr -> Seq([d, cur])]  fired timers in front of attemptReconnect's lock (arrival order)
           infl,   \* [Addr -> Seq([n, d, own])] attempts whose callback is running (begin order)
           last
 
-vars == <<paused, closed, ex, att, idx, pend, gate, infl, last>>
-view == <<paused, closed, ex, att, idx, pend, gate, infl>>
+vars == <<paused, closed, ex, att, idx, nd, cons, pend, gate, infl, last>>
+view == <<paused, closed, ex, att, idx, nd, cons, pend, gate, infl>>
 
 Min(a, b) == IF a < b THEN a ELSE b
+\* the statement's delay of the k-th consecutive retry (before jitter)
+RECURSIVE Delay(_)
+Delay(k) == IF k = 0 THEN Initial ELSE Min((Delay(k - 1) * MulN) \div MulD, MaxDelay)
+\* Cap is the index at which the delay saturates
+ASSUME Delay(Cap) = MaxDelay /\ (Cap > 0 => Delay(Cap - 1) < MaxDelay) /\ MulN > MulD
+\* what attemptReconnect does to state.nextDelay
+Grow(x) == IF "DevNoClamp" \in Dev
+             THEN (IF x < MaxDelay THEN (x * MulN) \div MulD ELSE x)
+             ELSE Min((x * MulN) \div MulD, MaxDelay)
 RemoveAt(s, i) == SubSeq(s, 1, i - 1) \o SubSeq(s, i + 1, Len(s))
 Stale(s) == [i \in 1..Len(s) |-> [s[i] EXCEPT !.cur = FALSE]]
 Disown(s) == [i \in 1..Len(s) |-> [s[i] EXCEPT !.own = FALSE]]
@@ -78,6 +103,7 @@ Superseding == "DevDoubleTimer" \notin Dev
 Init ==
   /\ paused = FALSE /\ closed = FALSE
   /\ ex = [a \in Addr |-> FALSE] /\ att = [a \in Addr |-> 0] /\ idx = [a \in Addr |-> 0]
+  /\ nd = [a \in Addr |-> 0] /\ cons = [a \in Addr |-> 0]
   /\ pend = [a \in Addr |-> <<>>] /\ gate = [a \in Addr |-> <<>>] /\ infl = [a \in Addr |-> <<>>]
   /\ last = [act |-> "Init"]
 
@@ -90,6 +116,7 @@ Arm(a, i) ==
 \* the state of `a` leaves the map; its pending timer is stopped
 Forget(a) ==
   /\ ex' = [ex EXCEPT ![a] = FALSE] /\ att' = [att EXCEPT ![a] = 0] /\ idx' = [idx EXCEPT ![a] = 0]
+  /\ nd' = [nd EXCEPT ![a] = 0] /\ cons' = [cons EXCEPT ![a] = 0]
   /\ pend' = [pend EXCEPT ![a] = <<>>]
   /\ gate' = [gate EXCEPT ![a] = IF Superseding THEN Stale(@) ELSE @]
 
@@ -98,7 +125,7 @@ Exhausted(a, n) == MaxAttempts > 0 /\ n >= MaxAttempts
 (* ---- Schedule -----------------------------------------------------------*)
 ScheduleBody(a, name) ==
   IF closed \/ paused
-    THEN /\ UNCHANGED <<paused, closed, ex, att, idx, pend, gate, infl>>
+    THEN /\ UNCHANGED <<paused, closed, ex, att, idx, nd, cons, pend, gate, infl>>
          /\ last' = [act |-> name, a |-> a, res |-> "ignored"]
     ELSE IF ex[a] /\ Exhausted(a, att[a])
       THEN /\ Forget(a)
@@ -106,8 +133,9 @@ ScheduleBody(a, name) ==
            /\ UNCHANGED <<paused, closed>>
            /\ last' = [act |-> name, a |-> a, res |-> "exhausted"]
       ELSE /\ ex' = [ex EXCEPT ![a] = TRUE]
+           /\ nd' = [nd EXCEPT ![a] = IF ex[a] THEN @ ELSE Initial]
            /\ Arm(a, idx[a])
-           /\ UNCHANGED <<paused, closed, att, idx, infl>>
+           /\ UNCHANGED <<paused, closed, att, idx, cons, infl>>
            /\ last' = [act |-> name, a |-> a, res |-> "armed", d |-> idx[a]]
 
 Schedule(a) == ScheduleBody(a, "Schedule")
@@ -119,7 +147,7 @@ TimerFire(a, i) ==
   /\ i \in 1..Len(pend[a]) /\ Len(gate[a]) < MaxGate
   /\ gate' = [gate EXCEPT ![a] = Append(@, pend[a][i])]
   /\ pend' = [pend EXCEPT ![a] = RemoveAt(@, i)]
-  /\ UNCHANGED <<paused, closed, ex, att, idx, infl>>
+  /\ UNCHANGED <<paused, closed, ex, att, idx, nd, cons, infl>>
   /\ last' = [act |-> "TimerFire", a |-> a, i |-> i, d |-> pend[a][i].d]
 
 Begins(a, g) ==
@@ -135,13 +163,15 @@ Release(a, i) ==
             /\ (MaxAttempts = 0 => att[a] < AttBound)
             /\ att' = [att EXCEPT ![a] = @ + 1]
             /\ idx' = [idx EXCEPT ![a] = Min(@ + 1, Cap)]
+            /\ nd' = [nd EXCEPT ![a] = Grow(@)]
+            /\ cons' = [cons EXCEPT ![a] = @ + 1]
             /\ infl' = [infl EXCEPT ![a] = Append(@, [n |-> att[a], d |-> g.d, own |-> TRUE])]
             /\ gate' = [gate EXCEPT ![a] = RemoveAt(@, i)]
             /\ UNCHANGED <<paused, closed, ex, pend>>
-            /\ last' = [act |-> "Release", a |-> a, i |-> i, res |-> "begin", n |-> att[a], d |-> g.d,
+            /\ last' = [act |-> "Release", a |-> a, i |-> i, res |-> "begin", n |-> att[a], k |-> cons[a], d |-> g.d,
                         paused |-> paused]
        ELSE /\ gate' = [gate EXCEPT ![a] = RemoveAt(@, i)]
-            /\ UNCHANGED <<paused, closed, ex, att, idx, pend, infl>>
+            /\ UNCHANGED <<paused, closed, ex, att, idx, nd, cons, pend, infl>>
             /\ last' = [act |-> "Release", a |-> a, i |-> i, res |-> "skip"]
 
 (* ---- end of an attempt --------------------------------------------------*)
@@ -152,8 +182,14 @@ AttemptEnd(a, j, ok) ==
      IF closed \/ ~x.own
        THEN \* Stop() was called, or the state was cancelled / reset / replaced while the callback ran
             /\ infl' = [infl EXCEPT ![a] = rest]
-            /\ UNCHANGED <<paused, closed, ex, att, idx, pend, gate>>
+            /\ UNCHANGED <<paused, closed, ex, att, idx, nd, cons, pend, gate>>
             /\ last' = [act |-> "AttemptEnd", a |-> a, j |-> j, ok |-> ok, res |-> "detached"]
+       ELSE IF ok /\ "DevSuccessKeepsState" \in Dev /\ Len(pend[a]) > 0
+         THEN \* deviation: connected, but the state and its grown delay survive (the run of retries is over all the same)
+              /\ infl' = [infl EXCEPT ![a] = rest]
+              /\ cons' = [cons EXCEPT ![a] = 0]
+              /\ UNCHANGED <<paused, closed, ex, att, idx, nd, pend, gate>>
+              /\ last' = [act |-> "AttemptEnd", a |-> a, j |-> j, ok |-> ok, res |-> "connected", dev |-> "DevSuccessKeepsState"]
        ELSE IF ok \/ Exhausted(a, att[a])
          THEN /\ Forget(a)
               /\ infl' = [infl EXCEPT ![a] = Disown(rest)]
@@ -162,7 +198,7 @@ AttemptEnd(a, j, ok) ==
                           res |-> IF ok THEN "connected" ELSE "exhausted"]
          ELSE IF paused /\ "DevNoPauseCheckInAttempt" \notin Dev
            THEN /\ infl' = [infl EXCEPT ![a] = rest]
-                /\ UNCHANGED <<paused, closed, ex, att, idx, pend, gate>>
+                /\ UNCHANGED <<paused, closed, ex, att, idx, nd, cons, pend, gate>>
                 /\ last' = [act |-> "AttemptEnd", a |-> a, j |-> j, ok |-> ok, res |-> "paused"]
            ELSE /\ infl' = [infl EXCEPT ![a] = rest]
                 /\ IF Superseding
@@ -170,7 +206,7 @@ AttemptEnd(a, j, ok) ==
                      ELSE /\ Len(pend[a]) < MaxPend
                           /\ pend' = [pend EXCEPT ![a] = Append(@, [d |-> idx[a], cur |-> TRUE])]
                           /\ UNCHANGED gate
-                /\ UNCHANGED <<paused, closed, ex, att, idx>>
+                /\ UNCHANGED <<paused, closed, ex, att, idx, nd, cons>>
                 /\ last' = [act |-> "AttemptEnd", a |-> a, j |-> j, ok |-> ok, res |-> "armed", d |-> idx[a]]
 
 (* ---- pause / resume / reset ---------------------------------------------*)
@@ -178,16 +214,17 @@ Pause ==
   /\ IF paused \/ closed
        THEN UNCHANGED <<paused, pend>>
        ELSE paused' = TRUE /\ pend' = [a \in Addr |-> <<>>]
-  /\ UNCHANGED <<closed, ex, att, idx, gate, infl>>
+  /\ UNCHANGED <<closed, ex, att, idx, nd, cons, gate, infl>>
   /\ last' = [act |-> "Pause"]
 
 Resume ==
   /\ paused' = FALSE
-  /\ UNCHANGED <<closed, ex, att, idx, pend, gate, infl>>
+  /\ UNCHANGED <<closed, ex, att, idx, nd, cons, pend, gate, infl>>
   /\ last' = [act |-> "Resume"]
 
 ForgetAll ==
   /\ ex' = [a \in Addr |-> FALSE] /\ att' = [a \in Addr |-> 0] /\ idx' = [a \in Addr |-> 0]
+  /\ nd' = [a \in Addr |-> 0] /\ cons' = [a \in Addr |-> 0]
   /\ pend' = [a \in Addr |-> <<>>]
   /\ gate' = [a \in Addr |-> IF Superseding THEN Stale(gate[a]) ELSE gate[a]]
   /\ infl' = [a \in Addr |-> Disown(infl[a])]
@@ -200,7 +237,7 @@ ResetAll ==
 Cancel(a) ==
   /\ IF ex[a]
        THEN Forget(a) /\ infl' = [infl EXCEPT ![a] = Disown(@)]
-       ELSE UNCHANGED <<ex, att, idx, pend, gate, infl>>
+       ELSE UNCHANGED <<ex, att, idx, nd, cons, pend, gate, infl>>
   /\ UNCHANGED <<paused, closed>>
   /\ last' = [act |-> "Cancel", a |-> a]
 
@@ -225,7 +262,7 @@ TypeOK ==
   /\ paused \in BOOLEAN /\ closed \in BOOLEAN
   /\ \A a \in Addr : /\ idx[a] \in 0..Cap
                      /\ (ex[a] => idx[a] = Min(att[a], Cap))
-                     /\ (~ex[a] => att[a] = 0 /\ idx[a] = 0 /\ Len(pend[a]) = 0)
+                     /\ (~ex[a] => att[a] = 0 /\ idx[a] = 0 /\ nd[a] = 0 /\ Len(pend[a]) = 0)
 
 \* C31 (1): no new connection attempt starts while reconnection is paused
 NoAttemptWhilePaused ==
@@ -234,18 +271,21 @@ NoAttemptWhilePaused ==
 NoTimerWhilePaused == (paused \/ closed) => \A a \in Addr : Len(pend[a]) = 0
 \* at most one pending timer per address
 OneTimer == \A a \in Addr : Len(pend[a]) <= 1
-\* C31 (2): the n-th consecutive attempt waited for the delay of index min(n, Cap)
+\* C31 (2): the k-th consecutive attempt waited for the delay of index min(k, Cap) ...
 Backoff ==
-  [][(last'.act = "Release" /\ last'.res = "begin") => last'.d = Min(last'.n, Cap)]_vars
+  [][(last'.act = "Release" /\ last'.res = "begin") => last'.d = Min(last'.k, Cap)]_vars
+\* ... and the delay the next timer will be armed with is min(Initial * Multiplier^k, MaxDelay), k = consecutive
+\* attempts so far (the code's own counter must be that k: it restarts after a success)
+NextDelayOK == \A a \in Addr : ex[a] => (nd[a] = Delay(cons[a]) /\ att[a] = cons[a])
 \* every timer is armed with the state's current index
 ArmIndex ==
   [][(last'.act \in {"Schedule", "CbSchedule", "AttemptEnd"} /\ last'.res = "armed") => last'.d = Min(att[last'.a], Cap)]_vars
 
 EmitEdge ==
   Emit => PrintT("EDGE " \o ToJson([
-            s |-> [paused |-> paused, closed |-> closed, ex |-> ex, att |-> att, idx |-> idx,
+            s |-> [paused |-> paused, closed |-> closed, ex |-> ex, att |-> att, idx |-> idx, nd |-> nd,
                    pend |-> pend, gate |-> gate, infl |-> infl],
             a |-> last',
-            t |-> [paused |-> paused', closed |-> closed', ex |-> ex', att |-> att', idx |-> idx',
+            t |-> [paused |-> paused', closed |-> closed', ex |-> ex', att |-> att', idx |-> idx', nd |-> nd',
                    pend |-> pend', gate |-> gate', infl |-> infl']]))
 =============================================================================
